@@ -40,7 +40,9 @@ def gen_label(rng, k):
 
 def gen_program(rng, tier):
     heal = rng.choice([3.0, 6.0, 12.0])
-    faults = rng.choice(["none", "none", "light", "heavy", "handshake"])
+    faults = rng.choice(["none", "none", "light", "heavy", "handshake", "none", "light", "reset-lossy"])
+    if faults == "reset-lossy":
+        heal = rng.choice([25.0, 45.0])  # a long spell in which most stream reset packets are lost: many retransmissions per close
     nch = rng.choice([1, 2, 3, 4, 6, 10]) if rng.random() < 0.9 else rng.choice([40, 120])
     ops = []
     feats = set()
@@ -62,8 +64,12 @@ def gen_program(rng, tier):
                                                    negotiated=(1000 + 2 * k + (1 if rng.random() < 0.5 else 0)) if negotiated else None)))
         # close?
         r = rng.random()
+        if faults == "reset-lossy":
+            r = 0.0
         if r < 0.5:
             mode = rng.choice(["immediate", "before-ack", "after-open", "both-ends", "remote", "late", "in-open-handler"])
+            if faults == "reset-lossy":
+                mode = rng.choice(["after-open", "after-open", "remote", "both-ends"])
             if mode == "immediate":
                 ops.append(("close", round(t, 4), k, creator))
                 feats.add("close-race")
@@ -115,6 +121,8 @@ def fault_spec(rng, faults):
         return {"latency": rng.choice([0.005, 0.05]), "profile": "clean", "loss": 0.0}
     if faults == "light":
         return {"latency": 0.02, "profile": "light", "loss": 0.03, "dup": 0.05, "jitter": 0.05}
+    if faults == "reset-lossy":
+        return {"latency": 0.02, "profile": "reset-lossy", "loss": 0.02, "kind_loss": {"reconfig": 0.85}}
     if faults == "handshake":
         s = {"latency": 0.02, "profile": "handshake", "loss": 0.05,
              "kind_extra": {k: (0.7, 3.5) for k in ("init", "cookieecho", "initack", "cookieack")}}
